@@ -93,13 +93,13 @@ Proof.
   - apply name_eqb_eq in E. subst. reflexivity.
   - exact IH.
 Qed.
-Lemma memoize_exact : forall c, ct_memo_cmp c = 0 -> forall n,
+Lemma memoize_exact : forall c, ct_memo_cmp c = 0 -> ct_memo_tbl c = ct_registers c -> forall n,
   memoize c n = match find_arm n (ct_memo c) with
                 | Some m => Some m
                 | None => if mem n (ct_registers c) then Some n else None
                 end.
 Proof.
-  intros c H n. unfold memoize, memo_eqb. rewrite H. cbn [Z.eqb]. rewrite find_exact. reflexivity.
+  intros c H T n. unfold memoize, memo_eqb. rewrite H, T. cbn [Z.eqb]. rewrite find_exact. reflexivity.
 Qed.
 
 Lemma plain_var_eval : forall e x, plain_var e x = true -> forall rf env v,
@@ -129,10 +129,10 @@ Proof.
   rewrite IH; [|intros b Hb; apply H; right; exact Hb]. cbn [obind]. destruct (q a); reflexivity.
 Qed.
 
-Lemma memoize_some_In : forall c, ct_memo_cmp c = 0 -> forall n m,
+Lemma memoize_some_In : forall c, ct_memo_cmp c = 0 -> ct_memo_tbl c = ct_registers c -> forall n m,
   memoize c n = Some m -> In n (ct_registers c ++ names_of (ct_memo c)).
 Proof.
-  intros c X n m H. rewrite (memoize_exact c X) in H. apply in_or_app.
+  intros c X T n m H. rewrite (memoize_exact c X T) in H. apply in_or_app.
   destruct (find_arm n (ct_memo c)) as [k|] eqn:E.
   - right. exact (find_arm_In _ _ _ _ E).
   - left. destruct (mem n (ct_registers c)) eqn:E2; [|discriminate]. apply mem_In. exact E2.
@@ -169,19 +169,6 @@ Proof.
   intros b Hb. apply H. right. exact Hb.
 Qed.
 
-(* draining CpuRegisters = reading every name of the initial state in order; no fuel runs out *)
-Lemma cpu_iter_collect_mapM : forall c rf st,
-  cpu_iter_collect (S (length st)) c rf st = mapM (named c rf) st.
-Proof.
-  intros c rf st. induction st as [|r t IH]; [reflexivity|].
-  cbn [length]. remember (S (length t)) as k. cbn [cpu_iter_collect cpu_iter_next mapM]. unfold named at 1.
-  destruct (get_always c rf r) as [x| |tg|]; try reflexivity.
-  cbn [obind]. subst k. rewrite IH. destruct (mapM (named c rf) t); reflexivity.
-Qed.
-Lemma cpu_valid_registers_mapM : forall c rf v,
-  cpu_valid_registers c rf v = mapM (named c rf) (match v with VAll => ct_registers c | VSome s => s end).
-Proof. intros c rf v. unfold cpu_valid_registers. apply cpu_iter_collect_mapM. Qed.
-
 Lemma filter_all : forall A (p : A -> bool) l, (forall x, In x l -> p x = true) -> filter p l = l.
 Proof.
   intros A p l. induction l as [|a l IH]; intro H; [reflexivity|].
@@ -217,7 +204,13 @@ Record ctx_facts (c : ctx_table) : Prop := {
   f_fmt : ct_fmt_prefix c = [48; 120] /\ ct_fmt_zero c = true /\ ct_fmt_mul c = 2;
   f_width : ct_width c = 32 \/ ct_width c = 64;
   f_cmp : ct_memo_cmp c = 0;
-  f_lower : forall n, In n (accepted c) -> has_upper n = false
+  f_lower : forall n, In n (accepted c) -> has_upper n = false;
+  f_memo_tbl : ct_memo_tbl c = ct_registers c;
+  f_iter_all : ct_iter_all c = NList (ct_registers c);
+  f_iter_some : ct_iter_some c = NSet;
+  f_next : ct_next_slice c = 0 /\ ct_next_set c = 0 /\ plain_var (ct_next_val c) v_ga = true;
+  f_md_regs : plain_var (ct_md_regs_val c) v_mga = true;
+  f_md_size : plain_var (ct_md_size c) v_size = true
 }.
 
 Lemma facts_of_diagnose : forall c, diagnose c = [] -> ctx_facts c.
@@ -242,7 +235,13 @@ Proof.
   apply app_eq_nil in H. destruct H as [D3 H].
   apply app_eq_nil in H. destruct H as [D5 H].
   apply app_eq_nil in H. destruct H as [D4 H].
-  apply app_eq_nil in H. destruct H as [H12 H13].
+  apply app_eq_nil in H. destruct H as [H12 H].
+  apply app_eq_nil in H. destruct H as [H13 H].
+  apply app_eq_nil in H. destruct H as [G1 H].
+  apply app_eq_nil in H. destruct H as [G2 H].
+  apply app_eq_nil in H. destruct H as [G3 H].
+  apply app_eq_nil in H. destruct H as [G4 H].
+  apply app_eq_nil in H. destruct H as [G5 G6].
   constructor.
   - exact (diag_nil _ _ _ _ H1).
   - exact (diag_nil _ _ _ _ H2).
@@ -268,6 +267,16 @@ Proof.
     apply orb_true_iff in X. destruct X as [X|X]; apply Z.eqb_eq in X; [left | right]; exact X.
   - apply Z.eqb_eq. exact (diag_nil _ _ _ _ H12 _ (or_introl eq_refl)).
   - intros n Hn. pose proof (diag_nil _ _ _ _ H13 n Hn) as X. apply negb_true_iff in X. exact X.
+  - apply strs_eqb_eq. exact (diag_nil _ _ _ _ G1 _ (or_introl eq_refl)).
+  - pose proof (diag_nil _ _ _ _ G2 _ (or_introl eq_refl)) as X. cbv beta in X. unfold src_is_list in X.
+    destruct (ct_iter_all c) as [l|]; [|discriminate]. apply strs_eqb_eq in X. rewrite X. reflexivity.
+  - pose proof (diag_nil _ _ _ _ G3 _ (or_introl eq_refl)) as X. cbv beta in X.
+    destruct (ct_iter_some c); [discriminate | reflexivity].
+  - pose proof (diag_nil _ _ _ _ G4 _ (or_introl eq_refl)) as X. cbv beta in X.
+    apply andb_true_iff in X. destruct X as [X X3]. apply andb_true_iff in X. destruct X as [X1 X2].
+    apply Z.eqb_eq in X1. apply Z.eqb_eq in X2. repeat split; assumption.
+  - exact (diag_nil _ _ _ _ G5 _ (or_introl eq_refl)).
+  - exact (diag_nil _ _ _ _ G6 _ (or_introl eq_refl)).
 Qed.
 
 (* The one computational step: the checker run on the nine generated tables.  If a table
@@ -328,7 +337,7 @@ Qed.
 
 Lemma memoizable_accepted : forall n m, memoize c n = Some m -> In n (accepted c).
 Proof.
-  intros n m H. apply (memoize_some_In c (f_cmp c F)) in H. apply (f_memo_acc c F) in H.
+  intros n m H. apply (memoize_some_In c (f_cmp c F) (f_memo_tbl c F)) in H. apply (f_memo_acc c F) in H.
   apply is_some_true in H. destruct H as [x Hx]. exact (find_arm_In _ _ _ _ Hx).
 Qed.
 
@@ -387,7 +396,7 @@ Qed.
 Lemma canonical_fixpoint : forall n m, memoize c n = Some m -> memoize c m = Some m /\ In m (ct_registers c).
 Proof.
   intros n m H. assert (Hm : In m (ct_registers c)).
-  { rewrite (memoize_exact c (f_cmp c F)) in H. destruct (find_arm n (ct_memo c)) as [k|] eqn:E.
+  { rewrite (memoize_exact c (f_cmp c F) (f_memo_tbl c F)) in H. destruct (find_arm n (ct_memo c)) as [k|] eqn:E.
     - inversion H; subst k. apply find_arm_snd in E. apply (f_memo_target c F) in E. apply mem_In. exact E.
     - destruct (mem n (ct_registers c)) eqn:E2; [|discriminate]. inversion H; subst m. apply mem_In. exact E2. }
   split; [|exact Hm].
@@ -576,16 +585,55 @@ Proof.
 Qed.
 Lemma md_named_eq : forall rf n, md_named c rf n = named c rf n.
 Proof.
-  intros rf n. unfold md_named, named. rewrite md_get_always_eq. destruct (get_always c rf n); reflexivity.
+  intros rf n. unfold md_named, named. rewrite md_get_always_eq. destruct (get_always c rf n) as [x| |t|]; try reflexivity.
+  cbn [obind]. rewrite (plain_var_eval _ _ (f_md_regs c F) rf _ x); [reflexivity|].
+  cbn [lookup_var]. rewrite name_eqb_refl. reflexivity.
+Qed.
+Lemma md_register_size_eq : md_register_size c = Ret (register_size c).
+Proof.
+  unfold md_register_size. apply (plain_var_eval _ _ (f_md_size c F)). cbn [lookup_var]. rewrite name_eqb_refl. reflexivity.
 Qed.
 
 (* CpuRegisters::next, step by step, on states of known names: yields the head with its location's
    value and moves on; at the end it answers None and stays there *)
-Lemma cpu_iter_step : forall rf r t, memoize c r <> None ->
-  cpu_iter_next c rf (r :: t) = Ret (Some (r, rf_get rf (loc_of c r)), t).
+Lemma cpu_iter_next_plain : forall rf k r t,
+  cpu_iter_next c rf (k, r :: t) =
+  match get_always c rf r with
+  | Ret x => Ret (Some (r, x), (k, t)) | Fail => Fail | Panic tg => Panic tg | OutOfFuel => OutOfFuel
+  end.
 Proof.
-  intros rf r t H. cbn [cpu_iter_next]. destruct (memoize c r) as [k|] eqn:E; [|contradiction].
-  rewrite (get_always_accepted rf r (memoizable_accepted r k E)). reflexivity.
+  intros rf k r t. destruct (f_next c F) as [N1 [N2 N3]]. unfold cpu_iter_next. cbn [fst snd].
+  assert (S0 : match k with KSlice => ct_next_slice c | KSet => ct_next_set c end = 0) by (destruct k; assumption).
+  rewrite S0. cbn [Z.to_nat skipn]. destruct (get_always c rf r) as [x| |tg|]; try reflexivity.
+  cbn [obind]. rewrite (plain_var_eval _ _ N3 rf _ x); [reflexivity|].
+  cbn [lookup_var]. rewrite name_eqb_refl. reflexivity.
+Qed.
+Lemma cpu_iter_next_nil : forall rf k, cpu_iter_next c rf (k, []) = Ret (None, (k, [])).
+Proof. intros rf k. unfold cpu_iter_next. cbn [fst snd]. rewrite skipn_nil. reflexivity. Qed.
+Lemma cpu_iter_step : forall rf k r t, memoize c r <> None ->
+  cpu_iter_next c rf (k, r :: t) = Ret (Some (r, rf_get rf (loc_of c r)), (k, t)).
+Proof.
+  intros rf k r t H. rewrite cpu_iter_next_plain. destruct (memoize c r) as [m|] eqn:E; [|contradiction].
+  rewrite (get_always_accepted rf r (memoizable_accepted r m E)). reflexivity.
+Qed.
+(* draining CpuRegisters = reading every name of the initial state in order; no fuel runs out *)
+Lemma cpu_iter_collect_mapM : forall rf k st,
+  cpu_iter_collect (S (length st)) c rf (k, st) = mapM (named c rf) st.
+Proof.
+  intros rf k st. induction st as [|r t IH].
+  - cbn [length cpu_iter_collect]. rewrite cpu_iter_next_nil. reflexivity.
+  - cbn [length]. remember (S (length t)) as fu. cbn [cpu_iter_collect]. rewrite cpu_iter_next_plain.
+    cbn [mapM]. unfold named at 1.
+    destruct (get_always c rf r) as [x| |tg|]; try reflexivity.
+    cbn [obind]. subst fu. rewrite IH. destruct (mapM (named c rf) t); reflexivity.
+Qed.
+Lemma cpu_iter_init_eq : forall v,
+  cpu_iter_init c v = match v with VAll => (KSlice, ct_registers c) | VSome s => (KSet, s) end.
+Proof. intros [|s]; unfold cpu_iter_init; [rewrite (f_iter_all c F) | rewrite (f_iter_some c F)]; reflexivity. Qed.
+Lemma cpu_valid_registers_mapM : forall rf v,
+  cpu_valid_registers c rf v = mapM (named c rf) (match v with VAll => ct_registers c | VSome s => s end).
+Proof.
+  intros rf v. unfold cpu_valid_registers. rewrite cpu_iter_init_eq. destruct v; cbn [snd]; apply cpu_iter_collect_mapM.
 Qed.
 
 (* write by name, read back through every MinidumpContext-level path *)
@@ -651,5 +699,87 @@ Proof.
     intros a Ha. apply named_known. exact (Hs a Ha). }
   intros r Hr. pose proof (f_regs c F r Hr) as R. unfold ok_register in R.
   apply andb_true_iff in R. destruct R as [R1 R2]. split; [apply Z.eqb_eq; exact R2 | apply opt_str_eqb_spec; exact R1].
+Qed.
+(* ------------------------------------------------------------------ F-C18b exactly: where the checked accessors reach unreachable!() *)
+Lemma not_mem_accepted : forall n, mem n (accepted c) = false -> ~ In n (accepted c).
+Proof. intros n E X. apply mem_In in X. rewrite X in E. discriminate. Qed.
+
+(* the checked read, by cases, for ALL strings and ALL validity values *)
+Lemma get_register_cases : forall rf n v,
+  get_register c rf n v =
+  if mem n (accepted c) then (if is_valid c n v then Ret (Some (rf_get rf (loc_of c n))) else Ret None)
+  else match v with VAll => Ret None | VSome s => if mem n s then Panic 1 else Ret None end.
+Proof.
+  intros rf n v. destruct (mem n (accepted c)) eqn:E.
+  - apply mem_In in E. apply get_register_value. exact E.
+  - pose proof (not_mem_accepted n E) as N.
+    rewrite get_register_unfold, (unchecked_unknown_panics rf n N).
+    pose proof (not_accepted_unknown n N) as M.
+    destruct v as [|s].
+    + rewrite is_valid_all, M. reflexivity.
+    + rewrite is_valid_some. unfold alts_of. destruct (find_arm n (ct_groups c)) eqn:G.
+      * exfalso. apply find_arm_In in G. apply (f_groups c F) in G. rewrite M in G. discriminate.
+      * cbn [existsb]. rewrite orb_false_r. destruct (mem n s); reflexivity.
+Qed.
+
+(* the set enumeration, by cases, for ALL sets *)
+Lemma cpu_valid_registers_cases : forall rf s,
+  cpu_valid_registers c rf (VSome s) =
+  if forallb (fun a => mem a (accepted c)) s then Ret (listing rf s) else Panic 1.
+Proof.
+  intros rf s. rewrite cpu_valid_registers_mapM. induction s as [|a s IH]; [reflexivity|].
+  cbn [mapM forallb]. unfold named at 1. destruct (mem a (accepted c)) eqn:E.
+  - apply mem_In in E. rewrite (get_always_accepted rf a E), IH. cbn [andb].
+    destruct (forallb (fun a0 => mem a0 (accepted c)) s); reflexivity.
+  - rewrite (unchecked_unknown_panics rf a (not_mem_accepted a E)). reflexivity.
+Qed.
+
+Lemma forallb_false_ex : forall (p : name -> bool) l, forallb p l = false -> exists a, In a l /\ p a = false.
+Proof.
+  intros p l. induction l as [|a l IH]; intro H; [discriminate|].
+  cbn [forallb] in H. destruct (p a) eqn:E.
+  - destruct (IH H) as [b [Hb Pb]]. exists b. split; [right; exact Hb | exact Pb].
+  - exists a. split; [left; reflexivity | exact E].
+Qed.
+
+Lemma unreachable_exactly : forall rf n,
+  (exists o, get_register c rf n VAll = Ret o) /\
+  (forall s,
+     (get_register c rf n (VSome s) = Panic 1 <-> In n s /\ ~ In n (accepted c)) /\
+     (~ (In n s /\ ~ In n (accepted c)) -> exists o, get_register c rf n (VSome s) = Ret o) /\
+     md_get_register c rf n (VSome s) = get_register c rf n (VSome s) /\
+     (cpu_valid_registers c rf (VSome s) = Panic 1 <-> exists a, In a s /\ ~ In a (accepted c)) /\
+     ((forall a, In a s -> In a (accepted c)) -> cpu_valid_registers c rf (VSome s) = Ret (listing rf s)) /\
+     (exists l, md_valid_registers c rf (VSome s) = Ret l)).
+Proof.
+  intros rf n. split.
+  { rewrite get_register_cases. destruct (mem n (accepted c)); [destruct (is_valid c n VAll)|]; eexists; reflexivity. }
+  intro s.
+  assert (G : get_register c rf n (VSome s) = Panic 1 <-> In n s /\ ~ In n (accepted c)).
+  { rewrite get_register_cases. destruct (mem n (accepted c)) eqn:E.
+    - split.
+      + destruct (is_valid c n (VSome s)); discriminate.
+      + intros [_ N]. exfalso. apply N. apply mem_In. exact E.
+    - destruct (mem n s) eqn:E2.
+      + split; [intros _; split; [apply mem_In; exact E2 | exact (not_mem_accepted n E)] | reflexivity].
+      + split; [discriminate|]. intros [X _]. apply mem_In in X. rewrite X in E2. discriminate. }
+  split; [exact G|]. split.
+  { intro N. rewrite get_register_cases in *. destruct (mem n (accepted c)) eqn:E.
+    - destruct (is_valid c n (VSome s)); eexists; reflexivity.
+    - destruct (mem n s) eqn:E2; [|eexists; reflexivity].
+      exfalso. apply N. apply G. reflexivity. }
+  split; [apply md_get_register_eq|].
+  split.
+  { rewrite cpu_valid_registers_cases. destruct (forallb (fun a => mem a (accepted c)) s) eqn:E.
+    - split; [discriminate|]. intros [a [Ha N]]. exfalso. apply N. apply mem_In.
+      rewrite forallb_forall in E. exact (E a Ha).
+    - split; [|reflexivity]. intros _. destruct (forallb_false_ex _ _ E) as [a [Ha Pa]].
+      exists a. split; [exact Ha | exact (not_mem_accepted a Pa)]. }
+  split.
+  { intro H. rewrite cpu_valid_registers_cases.
+    assert (E : forallb (fun a => mem a (accepted c)) s = true).
+    { apply forallb_forall. intros a Ha. apply mem_In. exact (H a Ha). }
+    rewrite E. reflexivity. }
+  destruct (enumerations rf) as [_ [_ [_ [_ [V _]]]]]. eexists. exact (V s).
 Qed.
 End WithFacts.
